@@ -538,6 +538,12 @@ Proof.
   intros S. split; [intros -> Hx Hw; exact (stats_ok_weighted sorted xs ws o S Hx Hw) | exact (stats_ok_bounds _ _ _ _ _ S)].
 Qed.
 
+Lemma list_Qeq_sound : forall a b, list_Qeq a b = true -> Forall2 Qeq a b.
+Proof.
+  induction a as [|x a IH]; intros [|y b] H; cbn in H; try discriminate; [constructor|].
+  breflect. constructor; [assumption | now apply IH].
+Qed.
+
 (* ====================== 6. kind 1: histories ====================== *)
 (* one Query of a sample with contents s *)
 Definition query_obs_ok (s : sample) (mst : Z) (m sm w b1 b2 : xreal) (vst : Z) (v : xreal) : Prop :=
@@ -558,13 +564,100 @@ Proof.
   rewrite sample_variance_unw in B4. rewrite sample_variance_unw. exact B4.
 Qed.
 
+(* a legal Sample: one non-negative weight per value, Sorted only on ascending data.  Every sample of the
+   store stays legal along an accepted run (Sort, Copy, direct writes that clear the flag, adoption of the observed
+   order of a just-sorted sample) *)
+Definition swf (s : sample) : Prop :=
+  match s_ws s with Some w => length w = length (s_xs s) /\ Forall (fun x => 0 <= x) w | None => True end /\
+  (s_sorted s = true -> StronglySorted Qle (s_xs s)).
+
+Lemma sorted_transport : forall a b, Forall2 Qeq a b -> StronglySorted Qle a -> StronglySorted Qle b.
+Proof.
+  induction 1 as [|x y a b Hxy F IH]; intro S; [constructor|].
+  inversion S as [|? ? S' Fa]; subst. constructor; [apply IH; exact S'|].
+  clear -Hxy F Fa. induction F as [|x' y' a b H' F IH]; [constructor|].
+  inversion Fa; subst. constructor; [rewrite <- Hxy, <- H'; assumption | apply IH; assumption].
+Qed.
+Lemma Forall2_in_r {A B} (R : A -> B -> Prop) : forall a b, Forall2 R a b -> forall y, In y b -> exists x, In x a /\ R x y.
+Proof.
+  induction 1 as [|x y a b Hxy F IH]; intros z Hz; [destruct Hz|].
+  destruct Hz as [<-|Hz]; [exists x; split; [left; reflexivity | exact Hxy]|].
+  destruct (IH z Hz) as (x' & I & Rz). exists x'. split; [right; exact I | exact Rz].
+Qed.
+Lemma in_combine_snd : forall (xs ws : list Q) v, length ws = length xs -> In v ws -> exists x, In (x, v) (combine xs ws).
+Proof.
+  induction xs as [|x xt IH]; intros [|w wt] v L I; cbn [length] in L; try discriminate; [destruct I|].
+  destruct I as [<-|I]; [exists x; left; reflexivity|].
+  destruct (IH wt v ltac:(lia) I) as (x' & I'). exists x'. right. exact I'.
+Qed.
+Lemma length_set_nth {A} : forall (l : list A) j a, length (set_nth l j a) = length l.
+Proof. induction l as [|x l IH]; intros [|j] a; cbn; try reflexivity. rewrite IH. reflexivity. Qed.
+
+Lemma swf_sort s : swf s -> swf (sample_sort s).
+Proof.
+  intros G. pose proof G as [W S]. unfold sample_sort. destruct (s_sorted s) eqn:E; [exact G|].
+  destruct (s_ws s) as [w|] eqn:Ew.
+  - destruct W as [L F]. split; cbn [s_xs s_ws s_sorted].
+    + split; [rewrite !map_length; reflexivity|]. apply Forall_forall. intros v Hv.
+      apply in_map_iff in Hv. destruct Hv as ([x v'] & <- & I). apply (proj1 (psort_in _ _)) in I. apply in_combine_r in I.
+      rewrite Forall_forall in F. apply F. exact I.
+    + intros _. rewrite psort_fst. apply Qsort_sorted.
+  - split; cbn [s_xs s_ws s_sorted]; [exact I | intros _; apply Qsort_sorted].
+Qed.
+
+Lemma swf_adopt m d : swf m -> same_sorted_sample m d = true -> swf (sample_of_dump d).
+Proof.
+  intros [W S] H. unfold same_sorted_sample in H. destruct m as [mx mw ms], d as [dsorted dhasw dxs dws].
+  cbn [s_xs s_ws s_sorted sd_sorted sd_hasw sd_xs sd_ws has_w ws_of] in *. unfold sample_of_dump. cbn [sd_sorted sd_hasw sd_xs sd_ws].
+  apply andb_prop in H. destruct H as [H H4]. apply andb_prop in H. destruct H as [H H3].
+  apply andb_prop in H. destruct H as [H1 H2]. apply Bool.eqb_prop in H1. apply list_Qeq_sound in H3.
+  split; cbn [s_xs s_ws s_sorted].
+  - destruct mw as [w|]; apply Bool.eqb_prop in H2; subst dhasw; [|exact I].
+    destruct W as [L F]. cbv zeta in H4. apply andb_prop in H4. destruct H4 as [HL H4]. apply Nat.eqb_eq in HL.
+    apply andb_prop in H4. destruct H4 as [_ HS]. apply list_Qeq_sound in HS.
+    split; [exact HL|]. apply Forall_forall. intros v Hv.
+    destruct (in_combine_snd dxs dws v HL Hv) as (x & Ixv).
+    assert (Iv : In v (map snd (canon (combine dxs dws)))).
+    { apply in_map_iff. exists (x, v). split; [reflexivity|]. unfold canon. apply (proj2 (isort_in _ _ _ _)). exact Ixv. }
+    destruct (Forall2_in_r _ _ _ HS v Iv) as (v' & Iv' & Ev).
+    apply in_map_iff in Iv'. destruct Iv' as ([x' v''] & <- & Ip). unfold canon in Ip. apply (proj1 (isort_in _ _ _ _)) in Ip.
+    apply in_combine_r in Ip. rewrite Forall_forall in F. cbn [snd] in Ev. rewrite <- Ev. apply F. exact Ip.
+  - intros ->. subst ms. eapply sorted_transport; [exact H3 | apply S; reflexivity].
+Qed.
+
+Lemma swf_nth st i s : Forall swf st -> nth_error st i = Some s -> swf s.
+Proof. intros F E. rewrite Forall_forall in F. apply F. eapply nth_error_In. exact E. Qed.
+
+Lemma swf_step st op : Forall swf st -> Forall swf (h_step st op).
+Proof.
+  intro F. destruct op as [i|i|i j v|i]; cbn [h_step].
+  - destruct (nth_error st i) as [s|] eqn:E; [|exact F]. apply Forall_set_nth; [exact F | apply swf_sort; eapply swf_nth; eassumption].
+  - destruct (nth_error st i) as [s|] eqn:E; [|exact F]. apply Forall_app. split; [exact F|].
+    constructor; [unfold sample_copy; eapply swf_nth; eassumption | constructor].
+  - destruct (nth_error st i) as [s|] eqn:E; [|exact F]. apply Forall_set_nth; [exact F|].
+    destruct (swf_nth _ _ _ F E) as [W _]. split; cbn [s_xs s_ws s_sorted]; [|discriminate].
+    destruct (s_ws s); [rewrite length_set_nth; exact W | exact I].
+  - exact F.
+Qed.
+
+Lemma same_store_nth : forall ms ds special k i m d, same_store ms ds special k = true ->
+  nth_error ms i = Some m -> nth_error ds i = Some d ->
+  (if (k + i =? special)%nat then same_sorted_sample m d else same_sample m d) = true.
+Proof.
+  induction ms as [|m0 ms IH]; intros [|d0 ds] special k i m d H Em Ed; try (destruct i; discriminate).
+  cbn [same_store] in H. apply andb_prop in H. destruct H as [H0 H].
+  destruct i as [|i]; cbn in Em, Ed.
+  - injection Em as <-. injection Ed as <-. rewrite Nat.add_0_r. exact H0.
+  - replace (k + S i)%nat with (S k + i)%nat by lia. eapply IH; eassumption.
+Qed.
+
 (* the dump after a Sort / Copy / Poke shows exactly the model store *)
 Definition dump_ok (st' : list sample) (op : hop) (ds : list sdump) : Prop :=
   same_store st' ds (match op with HSort i => i | _ => length st' end) 0 = true.
 
 (* the run, relative to the model store (h_step of Model/Sample.v): every dump agrees with the store
    (the just-sorted sample up to the order inside groups of equal values, which is then adopted),
-   every query is correct for the contents of the queried sample *)
+   every query is about a legal Sample and is correct for the contents of the queried sample *)
 Fixpoint hist_ok (st : list sample) (ops : list (hop * hobs)) : Prop :=
   match ops with
   | [] => True
@@ -572,7 +665,7 @@ Fixpoint hist_ok (st : list sample) (ops : list (hop * hobs)) : Prop :=
       let st' := h_step st op in
       match op, ob with
       | HQuery i, OQuery mst m sm w b1 b2 vst v =>
-          (exists s, nth_error st' i = Some s /\ query_obs_ok s mst m sm w b1 b2 vst v) /\ hist_ok st' rest
+          (exists s, nth_error st' i = Some s /\ swf s /\ query_obs_ok s mst m sm w b1 b2 vst v) /\ hist_ok st' rest
       | HQuery _, ODump _ => False
       | _, ODump ds =>
           dump_ok st' op ds /\
@@ -583,21 +676,47 @@ Fixpoint hist_ok (st : list sample) (ops : list (hop * hobs)) : Prop :=
       end
   end.
 
-Theorem run_hist_sound : forall ops st idx tag tag' pos diag,
+Theorem run_hist_sound : forall ops st idx tag tag' pos diag, Forall swf st ->
   run_hist st ops idx tag = (0%Z, tag', pos, diag) -> hist_ok st ops.
 Proof.
-  induction ops as [|[op ob] rest IH]; intros st idx tag tag' pos diag R; [exact I|].
+  induction ops as [|[op ob] rest IH]; intros st idx tag tag' pos diag W R; [exact I|].
   cbn [run_hist] in R. cbv zeta in R. cbn [hist_ok]. cbv zeta.
+  pose proof (swf_step st op W) as W'.
   destruct op as [i|i|i j x|i]; destruct ob as [ds|mst m sm w b1 b2 vst v]; try discriminate.
   - destruct (same_store (h_step st (HSort i)) ds i 0) eqn:S; [|discriminate].
-    split; [exact S | eapply IH; exact R].
+    split; [exact S|]. eapply IH; [|exact R].
+    destruct (nth_error ds i) as [d|] eqn:Ed; [|exact W'].
+    destruct (nth_error (h_step st (HSort i)) i) as [m|] eqn:Em.
+    + apply Forall_set_nth; [exact W'|]. eapply swf_adopt; [eapply swf_nth; eassumption|].
+      pose proof (same_store_nth _ _ _ _ _ _ _ S Em Ed) as Q. cbn [Nat.add] in Q. rewrite Nat.eqb_refl in Q. exact Q.
+    + (* index beyond the store: set_nth changes nothing *)
+      assert (G : forall (l : list sample) k a, nth_error l k = None -> set_nth l k a = l).
+      { induction l as [|x l IHl]; intros [|k] a E; cbn in *; try reflexivity; try discriminate. rewrite IHl by exact E. reflexivity. }
+      rewrite G by exact Em. exact W'.
   - destruct (same_store (h_step st (HCopy i)) ds (length (h_step st (HCopy i))) 0) eqn:S; [|discriminate].
-    split; [exact S | eapply IH; exact R].
+    split; [exact S | eapply IH; [exact W' | exact R]].
   - destruct (same_store (h_step st (HPoke i j x)) ds (length (h_step st (HPoke i j x))) 0) eqn:S; [|discriminate].
-    split; [exact S | eapply IH; exact R].
+    split; [exact S | eapply IH; [exact W' | exact R]].
   - destruct (nth_error (h_step st (HQuery i)) i) as [s|] eqn:N; [|discriminate].
     destruct (query_ok s mst m sm w b1 b2 vst v) as [k|] eqn:Qk; [discriminate|].
-    split; [exists s; split; [reflexivity | apply query_ok_sound; exact Qk] | eapply IH; exact R].
+    split; [exists s; split; [reflexivity | split; [eapply swf_nth; eassumption | apply query_ok_sound; exact Qk]] | eapply IH; [exact W' | exact R]].
+Qed.
+
+(* for a legal Sample the premises of the weighted-Mean and Bounds clauses of a query hold *)
+Theorem query_closed s mst m sm w b1 b2 vst v : swf s -> query_obs_ok s mst m sm w b1 b2 vst v ->
+  match s_ws s with
+  | Some ws => (s_xs s <> [] -> (exists w0, In w0 ws /\ ~ w0 == 0) ->
+                  mst = 0%Z /\ obs_near (tol_wmean (s_xs s)) (wmean_def (combine (s_xs s) ws)) m) /\
+               bounds_ok (used (combine (s_xs s) ws)) b1 b2
+  | None => bounds_ok (s_xs s) b1 b2
+  end.
+Proof.
+  intros [W S] (QM & _ & _ & QB & _). destruct s as [xs [ws|] sorted]; cbn [s_xs s_ws s_sorted] in *.
+  - destruct W as [L F]. split.
+    + intros Hx Hw. unfold smean_ok in QM. destruct xs as [|x t]; [congruence|].
+      apply QM; [apply nonneg_combine; exact F | apply wsum_w_pos; assumption].
+    + apply QB; [exact S | exact L].
+  - apply QB. exact S.
 Qed.
 
 (* ====================== 7. kind 2: vec ====================== *)
@@ -605,11 +724,6 @@ Lemma lists_close_sound tol : forall e o, lists_close tol e o = true -> Forall2 
 Proof.
   induction e as [|x e IH]; intros [|y o] H; cbn in H; try discriminate; [constructor|].
   breflect. constructor; [now apply within_sound | now apply IH].
-Qed.
-Lemma list_Qeq_sound : forall a b, list_Qeq a b = true -> Forall2 Qeq a b.
-Proof.
-  induction a as [|x a IH]; intros [|y b] H; cbn in H; try discriminate; [constructor|].
-  breflect. constructor; [assumption | now apply IH].
 Qed.
 
 (* Linspace: num values, the i-th within tol_lin of lo + i (hi - lo) / (num - 1); num = 1: [lo] *)
@@ -676,11 +790,11 @@ Proof.
     unfold check_stats in V. cbv zeta in V.
     match type of V with (match xs with [] => match ?r with _ => _ end | _ => _ end) = _ => destruct r end;
       destruct xs; apply verdict_inj in V; destruct V as [V _]; unfold V_OK, V_MISMATCH in V; lia.
-  - destruct (negb (sample_ok sorted hasw xs ws)) eqn:G; [bad_verdict V|]. clear G.
+  - destruct (negb (sample_ok sorted hasw xs ws)) eqn:G; [bad_verdict V|]. apply Bool.negb_false_iff in G.
     cbv zeta in V. destruct (run_hist [mkSample xs (if hasw then Some ws else None) sorted] ops 0%Z T_HIST) as [[[code tg] ps] dg] eqn:R.
     apply verdict_inj in V. destruct V as [V _].
     assert (C0 : code = 0%Z).
-    { assert (G : forall ops st idx tag code tg ps dg, run_hist st ops idx tag = (code, tg, ps, dg) -> (code = 0 \/ code = 2 \/ code = 3)%Z).
+    { assert (GC : forall ops st idx tag code tg ps dg, run_hist st ops idx tag = (code, tg, ps, dg) -> (code = 0 \/ code = 2 \/ code = 3)%Z).
       { clear. induction ops as [|[op ob] rest IH]; intros st idx tag code tg ps dg R; cbn [run_hist] in R; cbv zeta in R.
         - injection R as <- _ _ _. auto.
         - destruct op as [i|i|i j x|i]; destruct ob as [ds|mst m sm w b1 b2 vst v];
@@ -689,8 +803,11 @@ Proof.
                    | match ?x with _ => _ end = _ => destruct x
                    end;
             try (injection R as <- _ _ _; auto; fail); eapply IH; exact R. }
-      destruct (G _ _ _ _ _ _ _ _ R) as [->|[->| ->]]; [reflexivity| |]; cbn in V; unfold V_MALFORMED in V; lia. }
-    subst code. cbn in V. split; [lia|]. eapply run_hist_sound. exact R.
+      destruct (GC _ _ _ _ _ _ _ _ R) as [->|[->| ->]]; [reflexivity| |]; cbn in V; unfold V_MALFORMED in V; lia. }
+    subst code. cbn in V. split; [lia|]. eapply run_hist_sound; [|exact R].
+    constructor; [|constructor]. destruct (sample_ok_sound _ _ _ _ G) as [G1 G2]. split; cbn [s_xs s_ws s_sorted].
+    + destruct hasw; [exact (G1 eq_refl) | exact I].
+    + exact G2.
   - destruct (check_vec v) as [ok d] eqn:E. destruct ok; [|bad_verdict V].
     apply verdict_inj in V. destruct V as [V _]. split; [unfold V_OK in V; lia|]. eapply check_vec_sound; exact E.
 Qed.
